@@ -208,6 +208,15 @@ def measure_cases(ctx, quick, n_cases=None, seeds=None):
                         ctx.violation('%s.measure_1site({site: [c_site O, I]}) entry %r gives %r, the dense state has %r (%s %s %r)' % (name, key, complex(val), complex(ref), fam, sym, dims),
                                       dict(desc, env=name, what='1site-dict'))
                         raise StopIteration
+                if name == 'ctm':       # one site requested, operators supplied for all of them
+                    sq = rng.choice(sites)
+                    val = env.measure_1site({s: cf[s] * O1 for s in sites}, site=sq)
+                    ref = cf[sq] * dense_ev(jw, v, [O1], [s2i[sq]])
+                    ctx.count('measure_1site(dict, site=):ctm')
+                    if isinstance(val, dict) or abs(val - ref) > tol:
+                        ctx.violation('ctm.measure_1site({site: c_site O}, site=%r) gives %r, the dense state has %r (%s %s %r)' % (tuple(sq), val if isinstance(val, dict) else complex(val), complex(ref), fam, sym, dims),
+                                      dict(desc, env=name, what='1site-dict-site'), family='ctm-measure-1site-dict-site')
+                        raise StopIteration
                 if name in ('ctm', 'bp'):
                     for (A, B) in pairs:
                         lists = rng.random() < 0.5
